@@ -172,11 +172,14 @@ def cases(rng, tier):
     # the extension field kinds (SizedString, IPV4, HostName, DateString, TimeString, JSONString) inside the modelled region:
     # the same type-directed streams with the extended declaration generator, and the directed pools
     ext = S.gen_cases(random.Random("ext" + str(rng.getstate()[1][0])), tier, 70 if tier == "quick" else 1000, ext=True, prefix="E") + S.xstring_cases()
-    return base + ext
+    # arguments that are the library's own typed wrappers, read from a laxly declared field of another instance
+    tp = S.transplant_cases(random.Random("tp" + str(rng.getstate()[1][0])), tier, 60 if tier == "quick" else 800)
+    return base + ext + tp
 
 
 def search_cases(rng, tier):
-    return S.gen_cases(rng, "thorough", 400) + inherit_cases(rng, 500) + S.gen_cases(random.Random("ext-s" + str(rng.getstate()[1][0])), "thorough", 200, ext=True, prefix="E")
+    return S.gen_cases(rng, "thorough", 400) + inherit_cases(rng, 500) + S.gen_cases(random.Random("ext-s" + str(rng.getstate()[1][0])), "thorough", 200, ext=True, prefix="E") \
+        + S.transplant_cases(random.Random("tp-s" + str(rng.getstate()[1][0])), "thorough", 150)
 
 
 def _i(case):
